@@ -15,7 +15,7 @@ from verif.contracts.common import (Obligation, Result, PROVED, REFUTED, UNDECID
 from verif.engine import pathexec as px
 
 LEVEL = 'other'
-EXPECTED_MIN = {'quick': 11, 'thorough': 17}
+EXPECTED_MIN = {'quick': 10, 'thorough': 16}
 EXPLANATION = ('PROVED: validate_model rejects every model exhibiting one of 16 unsupported-feature predicates, wherever the feature sits, for all '
                'real-valued field values, at every enumerated model structure (path-exhaustive execution of the real function, z3 on path conditions); the '
                'validate_model call dominates each native pipeline init (AST); System index helpers agree with the per-type widths for all type strings <= 6. '
